@@ -13,6 +13,7 @@ MsgOK(e) ==
     /\ e.accessorsEqual          \* Subject(), file names, Date(), To()/Cc()/From() return what was set
     /\ e.reserialiseEqual        \* Bytes() of the parsed message = the original bytes
     /\ e.chunkIndependent        \* every chunking of the reader gives the same result
+    /\ e.earlierBytesStable      \* the bytes returned for the previous message are still what they were
 TMsg == IsEvent("Msg") /\ MsgOK(Ev) /\ UNCHANGED dummy /\ Consume
 TraceNext == TMsg
 TraceSpec == TraceInit /\ [][TraceNext]_<<dummy, tvars>>
